@@ -1,9 +1,19 @@
 (* Model of /repo/fluent/fluent.go: the entry builders (IPv4Entry, IPv6Entry, LabelEntry,
    NextHopEntry, NextHopGroupEntry), the encapsulation-header sub-builders (MPLSEncapHeader,
    UDPV6EncapHeader), OpProto / EntryProto, and the Modify side of GRIBIClient (AddEntry,
-   ReplaceEntry, DeleteEntry, UpdateElectionID, connection parameters, Start, StartSending)
-   together with the part of /repo/client that decides which ModifyRequests leave the client
-   and in which order (Q, sendq, StartSending's handshake).
+   ReplaceEntry, DeleteEntry, UpdateElectionID, connection parameters, Start, Stop,
+   StartSending) together with the part of /repo/client that decides which ModifyRequests
+   leave the client and in which order (Q, sendq, StartSending's handshake).
+
+   Lifecycle.  A fluent.GRIBIClient lives longer than the client.Client it drives: every
+   successful Start builds a NEW client.Client (client.New: empty send queue, empty pending
+   queue, not sending; session parameters and initial election id taken from the connection
+   settings as they are at that moment) and drops the old one, Stop only stops the current
+   one (StopSending + Close; g.c stays, so later calls still queue on it, unsent).  What
+   belongs to the GRIBIClient itself survives a restart: the connection settings, opCount
+   and currentElectionID.  The model keeps the current client.Client in the c_started ..
+   c_sent / c_stopped fields and the replaced ones in c_past (per-incarnation queues); ids
+   come from the one counter c_count.
 
    Builders are Go pointers: a program is a list of steps over a store of builder objects
    named by numbers.  AddEncapHeader stores the *pointer* to the header builder's protobuf
@@ -274,21 +284,28 @@ Definition entry_proto (st : store) (e : entry_b) : entry_msg := MkEntry (b_ni e
 
 (* ------------------------------------------------------------------ the client *)
 
-(* fluent.GRIBIClient + its gRIBIConnection + the send side of client.Client *)
+(* a client.Client that a later Start replaced: what its Modify stream had received, and what
+   was still in its sendq (never sent: nothing refers to the old client any more) *)
+Record incarnation := MkInc { i_sent : list mreq; i_sendq : list mreq }.
+
+(* fluent.GRIBIClient + its gRIBIConnection + the send side of the current client.Client
+   (c_started .. c_sent, c_stopped) + the replaced ones (c_past) *)
 Record client := MkClient {
   c_mode : N;                    (* connection.redundMode: 0 unset, 1 AllPrimaryClients, 2 ElectedPrimaryClient *)
   c_init : option u128;          (* connection.electionID *)
   c_cur : option u128;           (* currentElectionID *)
   c_persist : bool; c_fiback : bool;
-  c_count : N;                   (* opCount *)
-  c_started : bool;              (* Start succeeded: g.c exists *)
+  c_count : N;                   (* opCount: never reset, not by Start either *)
+  c_started : bool;              (* a Start succeeded: g.c exists (it is never reset to nil) *)
   c_params : option (N * N * N); (* client.state.SessParams, fixed by Start *)
   c_elec0 : option u128;         (* client.state.ElectionID, fixed by Start *)
   c_sending : bool;              (* qs.sending *)
   c_sendq : list mreq;           (* qs.sendq: queued, not yet handed to the sender *)
   c_sent : list mreq;            (* handed to the Modify stream, in order *)
-  c_fatals : N }.                (* t.Fatalf calls *)
-Definition client0 := MkClient 0 None None false false 0 false None None false [] [] 0.
+  c_fatals : N;                  (* t.Fatalf calls *)
+  c_stopped : bool;              (* Stop was called on the current client.Client *)
+  c_past : list incarnation }.   (* the client.Clients replaced by a later Start, oldest first *)
+Definition client0 := MkClient 0 None None false false 0 false None None false [] [] 0 false [].
 
 Inductive ccall :=
 | CWithRedundancyMode (m : N)
@@ -296,6 +313,7 @@ Inductive ccall :=
 | CWithPersistence
 | CWithFIBACK
 | CStart
+| CStop
 | CStartSending
 | CAddEntry (bs : list bid)
 | CReplaceEntry (bs : list bid)
@@ -322,9 +340,9 @@ Fixpoint mk_ops (st : store) (opk mode : N) (cur : option u128) (count : N) (es 
 Definition enqueue (cl : client) (m : mreq) (count : N) (cur : option u128) : client :=
   if c_sending cl
   then MkClient (c_mode cl) (c_init cl) cur (c_persist cl) (c_fiback cl) count (c_started cl) (c_params cl) (c_elec0 cl)
-                (c_sending cl) (c_sendq cl) (c_sent cl ++ [m]) (c_fatals cl)
+                (c_sending cl) (c_sendq cl) (c_sent cl ++ [m]) (c_fatals cl) (c_stopped cl) (c_past cl)
   else MkClient (c_mode cl) (c_init cl) cur (c_persist cl) (c_fiback cl) count (c_started cl) (c_params cl) (c_elec0 cl)
-                (c_sending cl) (c_sendq cl ++ [m]) (c_sent cl) (c_fatals cl).
+                (c_sending cl) (c_sendq cl ++ [m]) (c_sent cl) (c_fatals cl) (c_stopped cl) (c_past cl).
 
 Definition modify (st : store) (cl : client) (opk : N) (bs : list bid) : client :=
   if c_started cl then
@@ -347,29 +365,44 @@ Definition client_step (st : store) (cl : client) (cc : ccall) : client :=
   match cc with
   | CWithRedundancyMode m =>
     MkClient m (c_init cl) (c_cur cl) (c_persist cl) (c_fiback cl) (c_count cl) (c_started cl) (c_params cl) (c_elec0 cl)
-             (c_sending cl) (c_sendq cl) (c_sent cl) (c_fatals cl)
+             (c_sending cl) (c_sendq cl) (c_sent cl) (c_fatals cl) (c_stopped cl) (c_past cl)
   | CWithInitialElectionID lo hi =>     (* also becomes the current id *)
     MkClient (c_mode cl) (Some (hi, lo)) (Some (hi, lo)) (c_persist cl) (c_fiback cl) (c_count cl) (c_started cl) (c_params cl) (c_elec0 cl)
-             (c_sending cl) (c_sendq cl) (c_sent cl) (c_fatals cl)
+             (c_sending cl) (c_sendq cl) (c_sent cl) (c_fatals cl) (c_stopped cl) (c_past cl)
   | CWithPersistence =>
     MkClient (c_mode cl) (c_init cl) (c_cur cl) true (c_fiback cl) (c_count cl) (c_started cl) (c_params cl) (c_elec0 cl)
-             (c_sending cl) (c_sendq cl) (c_sent cl) (c_fatals cl)
+             (c_sending cl) (c_sendq cl) (c_sent cl) (c_fatals cl) (c_stopped cl) (c_past cl)
   | CWithFIBACK =>
     MkClient (c_mode cl) (c_init cl) (c_cur cl) (c_persist cl) true (c_count cl) (c_started cl) (c_params cl) (c_elec0 cl)
-             (c_sending cl) (c_sendq cl) (c_sent cl) (c_fatals cl)
+             (c_sending cl) (c_sendq cl) (c_sent cl) (c_fatals cl) (c_stopped cl) (c_past cl)
   | CStart =>
-    if c_started cl then cl     (* a second Start would replace the client; programs start once *)
-    else if (c_mode cl =? 2) && (match c_init cl with None => true | Some _ => false end)
-    then MkClient (c_mode cl) (c_init cl) (c_cur cl) (c_persist cl) (c_fiback cl) (c_count cl) false (c_params cl) (c_elec0 cl)
-                  (c_sending cl) (c_sendq cl) (c_sent cl) (c_fatals cl + 1)
+    (* fluent.go:167-210.  In elected-primary mode without an initial election id t.Fatalf ends the
+       call before client.New: g.c keeps whatever it was.  Otherwise g.c becomes a NEW client.Client
+       (fresh queues, not sending, parameters from the connection settings as they are now); the old
+       one, if any, is dropped as it is — Start does not stop it.  opCount and currentElectionID are
+       not touched. *)
+    if (c_mode cl =? 2) && (match c_init cl with None => true | Some _ => false end)
+    then MkClient (c_mode cl) (c_init cl) (c_cur cl) (c_persist cl) (c_fiback cl) (c_count cl) (c_started cl) (c_params cl) (c_elec0 cl)
+                  (c_sending cl) (c_sendq cl) (c_sent cl) (c_fatals cl + 1) (c_stopped cl) (c_past cl)
     else MkClient (c_mode cl) (c_init cl) (c_cur cl) (c_persist cl) (c_fiback cl) (c_count cl) true (start_params cl)
                   (if c_mode cl =? 2 then c_init cl else None)
-                  (c_sending cl) (c_sendq cl) (c_sent cl) (c_fatals cl)
-  | CStartSending =>
-    (* client.StartSending: session parameters, then the initial election id, then the send queue *)
-    if c_started cl && negb (c_sending cl)
+                  false [] [] (c_fatals cl) false
+                  (c_past cl ++ (if c_started cl then [MkInc (c_sent cl) (c_sendq cl)] else []))
+  | CStop =>
+    (* fluent.go:214-221: StopSending + Close on the current client.Client (everything handed to the
+       stream has been delivered when Close returns); g.c stays, so later Modify calls queue on the
+       stopped client's sendq.  Before the first successful Start g.c is nil: nothing happens. *)
+    if c_started cl
     then MkClient (c_mode cl) (c_init cl) (c_cur cl) (c_persist cl) (c_fiback cl) (c_count cl) (c_started cl) (c_params cl) (c_elec0 cl)
-                  true [] (c_sent cl ++ handshake cl ++ c_sendq cl) (c_fatals cl)
+                  false (c_sendq cl) (c_sent cl) (c_fatals cl) true (c_past cl)
+    else cl
+  | CStartSending =>
+    (* client.StartSending: session parameters, then the initial election id, then the send queue.
+       On a stopped client.Client (modifyCh closed by Close) the call is not part of a program: the
+       client has to be Started again first. *)
+    if c_started cl && negb (c_sending cl) && negb (c_stopped cl)
+    then MkClient (c_mode cl) (c_init cl) (c_cur cl) (c_persist cl) (c_fiback cl) (c_count cl) (c_started cl) (c_params cl) (c_elec0 cl)
+                  true [] (c_sent cl ++ handshake cl ++ c_sendq cl) (c_fatals cl) (c_stopped cl) (c_past cl)
     else cl
   | CAddEntry bs => modify st cl 1 bs
   | CReplaceEntry bs => modify st cl 2 bs
@@ -424,12 +457,30 @@ Definition step_state (s : state) (x : step) : state :=
 Definition run_from (s : state) (p : list step) : state := fold_left step_state p s.
 Definition run (p : list step) : state := run_from state0 p.
 
-(* everything client c has queued so far, in queue order (the handshake of StartSending is
-   put in front of the queue it flushes) *)
+(* what the CURRENT client.Client of the fluent client has queued, in queue order (the handshake
+   of StartSending is put in front of the queue it flushes); after Stop, sendq grows again behind
+   what was sent *)
 Definition queued (cl : client) : list mreq := c_sent cl ++ c_sendq cl.
-Definition all_ops (cl : client) : list op_msg := flat_map m_ops (queued cl).
+Definition cur_ops (cl : client) : list op_msg := flat_map m_ops (queued cl).
+
+(* the same for a replaced client.Client *)
+Definition inc_ops (i : incarnation) : list op_msg := flat_map m_ops (i_sent i ++ i_sendq i).
+
+(* every client.Client the fluent client has driven, oldest first, the current one last (an empty
+   one stands for "not started yet") *)
+Definition incarnations (cl : client) : list incarnation := c_past cl ++ [MkInc (c_sent cl) (c_sendq cl)].
+
+(* every operation the fluent client has queued over its whole life, restarts included, in the order
+   the operations were queued *)
+Definition all_ops (cl : client) : list op_msg := flat_map inc_ops (incarnations cl).
 
 (* what reaches the Modify stream once the client is told to send (the harness ends every
-   program with StartSending on each started client that is not sending yet) *)
+   program with StartSending on each started client that is neither sending nor stopped) *)
 Definition finish (cl : client) : client := client_step [] cl CStartSending.
+(* the stream of the current client.Client *)
 Definition stream_of (s : state) (c : cid) : list mreq := c_sent (finish (cget (st_clients s) c)).
+(* all client.Clients of fluent client c, oldest first: what each one's stream received and what it
+   left unsent; none before the first successful Start *)
+Definition incs_of (s : state) (c : cid) : list incarnation :=
+  let cl := finish (cget (st_clients s) c) in
+  c_past cl ++ (if c_started cl then [MkInc (c_sent cl) (c_sendq cl)] else []).
